@@ -30,6 +30,7 @@ func NewReader() *Reader {
 // Seek resets the reader so it can be reused.
 func (r *Reader) Seek(b *Buffer) {
 	r.parent = b
+	r.start = 0 // a previous Range may have left the offset base of its section behind
 	r.use(b.buffer)
 }
 
